@@ -65,6 +65,12 @@ pub fn guarded_sub(a: u64, b: u64) -> u64 {
         0
     }
 }
+pub fn fresh_error(x: u32) -> std::io::Result<u32> {
+    if x == 0 {
+        return Err(std::io::Error::new(std::io::ErrorKind::InvalidData, "zero is on the free list"));
+    }
+    Ok(x)
+}
 pub fn abort_point(x: u32) -> u32 {
     if x == 7 {
         unimplemented!("seven");
